@@ -311,7 +311,10 @@ class MD3(DriftDetector):
                 self.drift_state = "drift"
 
             # update reference distribution
-            self.set_reference(self.oracle_data, target_name=target_column[0])
+            # (columns in the reference's order: labeled samples may list them in any order)
+            self.set_reference(
+                self.oracle_data[reference_columns], target_name=target_column[0]
+            )
             self.oracle_data = None
             self.waiting_for_oracle = False
 
